@@ -62,6 +62,12 @@ def generate(rng, tier):
         truth[p] = "fail"
         sets.append({"files": files, "rules": rules, "truth": truth, "info": info, "jobs": rng.randint(1, 3) if parallel else None,
                      "meta": {"kind": "failfast", "pos": pos}})
+        if parallel and i % 4 == 0:
+            # both at once: --fail-fast has already cancelled the run when Ctrl-C arrives during the wind-down (the first DROP DATABASE):
+            # everything is still released, the report written, the exit status non-zero
+            first = sorted(truth)[0]
+            sets.append({"files": files, "rules": rules, "truth": truth, "info": info, "jobs": rng.randint(2, 3),
+                         "meta": {"kind": "failfast+sigint", "pos": pos, "drop_of": clifam.case_name(first) + "_"}})
     return sets
 
 
@@ -116,6 +122,34 @@ def check_release(c, r, ju, t_cancel, kind):
     want = sorted(clifam.case_name(p) for p in c["truth"])
     if names != want:
         return "contradicts L1 (C19_junit_written): JUnit has cases %r, selected files are %r" % (names, want)
+    return None
+
+
+def serial_replay(c, r, ff):
+    """a serial run as a run of the serial driver model (coq/Serial.v): the schedule is read off the reports (the first file reported
+    cancelled was running when Ctrl-C arrived; if none was, Ctrl-C arrived in front of the first file reported skipped without a
+    failure that explains it) and the extracted model must then give exactly the observed reports, in order, and a matching exit status"""
+    st = [(p, tag) for p, tag, _ in clirun.status_lines(r["stdout"]) if p in c["truth"]]
+    order = sorted(c["truth"])
+    if [p for p, _ in st] != order:
+        return "reports %r are not the selected files in order %r" % (st, order)
+    tags = [t for _, t in st]
+    files = [0 if c["truth"][p] == "ok" else 1 for p in order]
+    sched, tok = [], False
+    for i, t in enumerate(tags):
+        if t == "CANCELLED":
+            sched.append(["run", 1]); tok = True
+        else:
+            if t == "SKIPPED" and not tok:
+                sched.append(["ctrlc"]); tok = True
+            sched.append(["run", 0])
+            if t == "FAILED" and ff:
+                tok = True
+    m = vlib.run_model("serial", [[files, 1 if ff else 0, sched]])[0]
+    code_tag = {0: "OK", 1: "FAILED", 4: "FAILED", 2: "CANCELLED", 3: "SKIPPED"}
+    want = [code_tag[x] for x in m[0]]
+    if want != tags or (m[1] != 0) != (r["rc"] != 0):
+        return "reports %r exit %r; the model of run_serial on the schedule read off them gives %r exit %r" % (st, r["rc"], want, m[1])
     return None
 
 
@@ -180,6 +214,12 @@ def execute(cases, tier):
                     spec = spec or "contradicts L1: file without a status: %r" % got
             if spec:
                 disagreements.append({"case": c, "impl": {"rc": r["rc"], "status": got, "stderr": r["stderr"][-400:]}, "model": None, "spec": spec, "broken": "corr_C19_cancel"})
+            elif not c["jobs"] and not r["hung"]:
+                why = serial_replay(c, r, True)
+                cats["serial_model_replayed"] += 1
+                if why:
+                    disagreements.append({"case": c, "impl": {"stdout": r["stdout"][-600:], "rc": r["rc"]}, "model": "coq/Serial.v", "spec": None,
+                                          "note": "the serial run is not a run of the serial driver model: " + why, "broken": "corr_C19_serial_model"})
             elif c["jobs"] and not r["hung"]:
                 # the run as a run of the driver model (coq/Driver.v) under fail-fast
                 def run_once(c=c):
@@ -197,6 +237,17 @@ def execute(cases, tier):
                 if why:
                     disagreements.append({"case": c, "impl": {"stdout": r["stdout"][-800:], "rc": r["rc"]}, "model": "coq/Driver.v replayed on the schedule reconstructed from the run",
                                           "spec": None, "note": "the run is not a run of the driver model: " + why, "broken": "corr_C19_driver_model"})
+            continue
+        if c["meta"]["kind"] == "failfast+sigint":
+            r, ju = run(c, [{"match": "DROP DATABASE " + c["meta"]["drop_of"], "signal": "INT", "grace_ms": GRACE}], ["--fail-fast"])
+            nruns += 1
+            cats["failfast+sigint"] += 1
+            keys.add(repr((c["files"], c["rules"], c["jobs"], "ff+int")))
+            sig = next((e for e in r["events"] if e["ev"] == "SIGNAL"), None)
+            spec = "harness: the signal was not sent (no DROP DATABASE for %r reached the engine)" % c["meta"]["drop_of"] if sig is None else             check_release(c, r, ju, sig["t"], "Ctrl-C during the wind-down after a fail-fast failure")
+            if spec:
+                disagreements.append({"case": c, "impl": {"rc": r["rc"], "stderr": r["stderr"][-400:], "events": r["events"][-12:]}, "model": None,
+                                      "spec": spec, "broken": "corr_C19_cancel"})
             continue
         if c["meta"]["kind"] == "sigpause":
             r, ju = run(c, [], [])
@@ -235,6 +286,12 @@ def execute(cases, tier):
                 cats["signal-not-reached"] += 1
                 continue
             spec = check_release(c, r, ju, sig["t"], "Ctrl-C at request %d of %d" % (k, nreq))
+            if not c["jobs"] and not r["hung"] and spec is None:
+                why = serial_replay(c, r, False)
+                cats["serial_model_replayed"] += 1
+                if why:
+                    disagreements.append({"case": dict(c, k=k), "impl": {"stdout": r["stdout"][-600:], "rc": r["rc"]}, "model": "coq/Serial.v", "spec": None,
+                                          "note": "the interrupted serial run is not a run of the serial driver model: " + why, "broken": "corr_C19_serial_model"})
             if c["jobs"]:
                 tr_c = cancel_trace(r, sig)
                 mcases.append([c["jobs"], [], tr_c])
